@@ -182,8 +182,12 @@ static struct loom *c15_build_loom2(void)
 	loom->is_init = 0;
 	loom->cpus_array = NULL;
 	loom->vcpu.index = -1; loom->vcpu.phyid = -1; loom->vcpu.is_virtual = 1;
+#ifdef C15_LN
+	w_ln = C15_LN;                /* case split over the number of CPUs already in the loom */
+#else
 	w_ln = nondet_int();
 	__CPROVER_assume(0 <= w_ln && w_ln <= 2);
+#endif
 	g_l0 = NULL; g_l1 = NULL;
 	if (w_ln >= 1) {
 		g_l0 = malloc(sizeof(struct cpu));
@@ -205,6 +209,9 @@ static struct loom *c15_build_loom2(void)
 	g_old_ncpus = loom->ncpus;
 	/* the stream's view: anything, at most three entries */
 	g_has_cpus = nondet_bool(); g_ncpu = nondet_size_t();
+#ifdef C15_N
+	g_ncpu = C15_N;               /* case split over the number of entries of the stream */
+#endif
 	__CPROVER_assume(g_ncpu <= 3);
 	for (int k = 0; k < 3; k++) {
 		g_isobj[k] = nondet_bool(); g_idx[k] = nondet_int(); g_phy[k] = nondet_int();
@@ -214,44 +221,40 @@ static struct loom *c15_build_loom2(void)
 	return loom;
 }
 
-static void c15_check_load_cpus(struct loom *loom, int r, unsigned old_err, unsigned old_low, unsigned old_hadd, size_t old_nprocs, struct proc *old_procs)
-{
-	/* accepted exactly when the union of what the loom had and what the stream says is a
-	 * consistent (index <-> phyid bijective) set of valid pairs -- an order-free condition */
-	VASSERT((r == 0) == (!w_has || (UNION_LEGAL && g_lowfail == old_low)), "load_cpus accepted exactly when the union of loom and stream CPUs is a valid partial bijection");
-	VASSERT(r == 0 || r == -1, "load_cpus returns 0 or -1");
-	VASSERT(r == 0 || g_err > old_err, "load_cpus refusal comes with a diagnostic");
-	VASSERT(w_has || (loom->cpus == g_l0 && loom->ncpus == g_old_ncpus && g_hadd_n == old_hadd), "a stream without CPU list changes nothing");
-	if (r == 0 && w_has) {
-		VASSERT(!M_PRESENT(0) || IN_CHAIN(loom, w_idx[0], w_phy[0]), "accepted: pair 0 is in the loom with exactly that pairing");
-		VASSERT(!M_PRESENT(1) || IN_CHAIN(loom, w_idx[1], w_phy[1]), "accepted: pair 1 is in the loom with exactly that pairing");
-		VASSERT(!M_PRESENT(2) || IN_CHAIN(loom, w_idx[2], w_phy[2]), "accepted: pair 2 is in the loom with exactly that pairing");
-		VASSERT((w_ln < 1 || C0(loom) == g_l0) && (w_ln < 2 || C1(loom) == g_l1), "accepted: CPUs the loom had stay first, in order");
-		VASSERT(loom->ncpus == g_old_ncpus + (unsigned long) N_NEW && loom->ncpus == (size_t) CLEN5(loom) &&
-			g_hadd_n == old_hadd + (unsigned) N_NEW, "accepted: exactly the new physical ids were added (duplicates ignored)");
+/* postconditions of load_cpus / loom_load_metadata (a macro: REACH assertions must sit in the h_ function) */
+#define C15_CHECK_LOAD_CPUS(loom, r, old_err, old_low, old_hadd, old_nprocs, old_procs) { \
+	VASSERT((r == 0) == (!w_has || (UNION_LEGAL && g_lowfail == old_low)), "load_cpus accepted exactly when the union of loom and stream CPUs is a valid partial bijection"); \
+	VASSERT(r == 0 || r == -1, "load_cpus returns 0 or -1"); \
+	VASSERT(r == 0 || g_err > old_err, "load_cpus refusal comes with a diagnostic"); \
+	VASSERT(w_has || (loom->cpus == g_l0 && loom->ncpus == g_old_ncpus && g_hadd_n == old_hadd), "a stream without CPU list changes nothing"); \
+	if (r == 0 && w_has) { \
+		VASSERT(!M_PRESENT(0) || IN_CHAIN(loom, w_idx[0], w_phy[0]), "accepted: pair 0 is in the loom with exactly that pairing"); \
+		VASSERT(!M_PRESENT(1) || IN_CHAIN(loom, w_idx[1], w_phy[1]), "accepted: pair 1 is in the loom with exactly that pairing"); \
+		VASSERT(!M_PRESENT(2) || IN_CHAIN(loom, w_idx[2], w_phy[2]), "accepted: pair 2 is in the loom with exactly that pairing"); \
+		VASSERT((w_ln < 1 || C0(loom) == g_l0) && (w_ln < 2 || C1(loom) == g_l1), "accepted: CPUs the loom had stay first, in order"); \
+		VASSERT(loom->ncpus == g_old_ncpus + (unsigned long) N_NEW && loom->ncpus == (size_t) CLEN5(loom) && \
+			g_hadd_n == old_hadd + (unsigned) N_NEW, "accepted: exactly the new physical ids were added (duplicates ignored)"); \
+	} \
+	if (r == 0) { \
+		VASSERT(CHAIN_BIJ(loom), "accepted: the loom's CPUs are again a partial bijection index <-> phyid"); \
+	} \
+	VASSERT(w_ln < 1 || (g_l0->index == w_lidx[0] && g_l0->phyid == w_lphy[0] && !g_l0->is_virtual), "old CPU 0 unchanged"); \
+	VASSERT(w_ln < 2 || (g_l1->index == w_lidx[1] && g_l1->phyid == w_lphy[1] && !g_l1->is_virtual), "old CPU 1 unchanged"); \
+	VASSERT(loom->is_init == 0 && loom->cpus_array == NULL && loom->nprocs == old_nprocs && loom->procs == old_procs && \
+		loom->vcpu.index == -1 && loom->vcpu.phyid == -1, "loom otherwise unchanged, still not initialized"); \
+	if (r == 0 && !w_has) REACH("stream without CPU list accepted"); \
+	if (r == 0 && w_has && w_ln == 0 && w_n == 3 && N_NEW == 3) REACH("three CPUs into an empty loom"); \
+	if (r == 0 && w_has && w_ln == 2 && w_n == 3 && N_NEW == 3) REACH("three more CPUs into a loom with two"); \
+	if (r == 0 && w_has && w_ln == 2 && w_n == 2 && N_NEW == 0) REACH("same CPUs again: duplicates ignored"); \
+	if (r == 0 && w_has && w_n == 2 && w_idx[0] > w_idx[1] && w_ln == 1 && N_NEW == 2) REACH("non-ascending index order accepted (D4 input)"); \
+	if (r != 0 && w_has && w_n == 0) REACH("empty CPU array refused"); \
+	if (r != 0 && w_has && w_n == 1 && w_isobj[0] && w_idx[0] < 0) REACH("negative index refused"); \
+	if (r != 0 && w_has && w_n == 1 && w_ln == 1 && w_isobj[0] && w_idx[0] >= 0 && w_phy[0] == w_lphy[0]) REACH("same phyid, different index refused"); \
+	if (r != 0 && w_has && w_n == 1 && w_ln == 1 && w_isobj[0] && w_idx[0] == w_lidx[0] && w_phy[0] >= 0 && w_phy[0] != w_lphy[0]) REACH("same index, different phyid refused (loom CPU)"); \
+	if (r != 0 && w_has && w_n == 2 && w_ln == 0 && w_isobj[0] && w_isobj[1] && w_idx[0] >= 0 && w_idx[0] == w_idx[1] && w_phy[0] >= 0 && w_phy[1] >= 0) REACH("same index twice in one stream refused"); \
+	if (r != 0 && w_has && w_n == 1 && w_isobj[0] && w_idx[0] >= 0 && w_phy[0] == -1) REACH("phyid -1 (virtual CPU) refused"); \
+	if (r != 0 && w_has && UNION_LEGAL) REACH("refused by calloc failure only"); \
 	}
-	if (r == 0) {
-		VASSERT(CHAIN_BIJ(loom), "accepted: the loom's CPUs are again a partial bijection index <-> phyid");
-	}
-	/* frame: the CPUs the loom had keep their identity, the loom stays uninitialized */
-	VASSERT(w_ln < 1 || (g_l0->index == w_lidx[0] && g_l0->phyid == w_lphy[0] && !g_l0->is_virtual), "old CPU 0 unchanged");
-	VASSERT(w_ln < 2 || (g_l1->index == w_lidx[1] && g_l1->phyid == w_lphy[1] && !g_l1->is_virtual), "old CPU 1 unchanged");
-	VASSERT(loom->is_init == 0 && loom->cpus_array == NULL && loom->nprocs == old_nprocs && loom->procs == old_procs &&
-		loom->vcpu.index == -1 && loom->vcpu.phyid == -1, "loom otherwise unchanged, still not initialized");
-
-	if (r == 0 && !w_has) REACH("stream without CPU list accepted");
-	if (r == 0 && w_has && w_ln == 0 && w_n == 3 && N_NEW == 3) REACH("three CPUs into an empty loom");
-	if (r == 0 && w_has && w_ln == 2 && w_n == 3 && N_NEW == 3) REACH("three more CPUs into a loom with two");
-	if (r == 0 && w_has && w_ln == 2 && w_n == 2 && N_NEW == 0) REACH("same CPUs again: duplicates ignored");
-	if (r == 0 && w_has && w_n == 2 && w_idx[0] > w_idx[1] && w_ln == 1 && N_NEW == 2) REACH("non-ascending index order accepted (D4 input)");
-	if (r != 0 && w_has && w_n == 0) REACH("empty CPU array refused");
-	if (r != 0 && w_has && w_n == 1 && w_isobj[0] && w_idx[0] < 0) REACH("negative index refused");
-	if (r != 0 && w_has && w_n == 1 && w_ln == 1 && w_isobj[0] && w_idx[0] >= 0 && w_phy[0] == w_lphy[0]) REACH("same phyid, different index refused");
-	if (r != 0 && w_has && w_n == 1 && w_ln == 1 && w_isobj[0] && w_idx[0] == w_lidx[0] && w_phy[0] >= 0 && w_phy[0] != w_lphy[0]) REACH("same index, different phyid refused (loom CPU)");
-	if (r != 0 && w_has && w_n == 2 && w_ln == 0 && w_isobj[0] && w_isobj[1] && w_idx[0] >= 0 && w_idx[0] == w_idx[1] && w_phy[0] >= 0 && w_phy[1] >= 0) REACH("same index twice in one stream refused");
-	if (r != 0 && w_has && w_n == 1 && w_isobj[0] && w_idx[0] >= 0 && w_phy[0] == -1) REACH("phyid -1 (virtual CPU) refused");
-	if (r != 0 && w_has && UNION_LEGAL) REACH("refused by calloc failure only");
-}
 
 void h_load_cpus(void)
 {
@@ -260,7 +263,7 @@ void h_load_cpus(void)
 	unsigned old_err = g_err, old_low = g_lowfail, old_hadd = g_hadd_n;
 	size_t old_nprocs = loom->nprocs; struct proc *old_procs = loom->procs;
 	int r = load_cpus(loom, meta);
-	c15_check_load_cpus(loom, r, old_err, old_low, old_hadd, old_nprocs, old_procs);
+	C15_CHECK_LOAD_CPUS(loom, r, old_err, old_low, old_hadd, old_nprocs, old_procs);
 }
 
 /* loom_load_metadata: the public entry; same verdict and effect */
@@ -271,7 +274,7 @@ void h_loom_load_metadata(void)
 	unsigned old_err = g_err, old_low = g_lowfail, old_hadd = g_hadd_n;
 	size_t old_nprocs = loom->nprocs; struct proc *old_procs = loom->procs;
 	int r = loom_load_metadata(loom, s);
-	c15_check_load_cpus(loom, r, old_err, old_low, old_hadd, old_nprocs, old_procs);
+	C15_CHECK_LOAD_CPUS(loom, r, old_err, old_low, old_hadd, old_nprocs, old_procs);
 }
 
 /* ---------------- loom_init_end (bounded: <= 3 CPUs) ---------------- */
@@ -539,3 +542,33 @@ void h_loom_preorders(void)
 		if (ab < 0 && bc < 0) REACH("phyids strictly ascending");
 	}
 }
+
+
+#ifdef C15_TMP
+void h_tmp1(void)
+{
+	struct cpu *cpu = calloc(1, sizeof(struct cpu));
+	if (cpu == NULL) return;
+	cpu_init_begin(cpu, nondet_int(), nondet_int(), 0);
+	int s = 0;
+	for (int i = 0; i < 10; i++) { if (cpu->index == i) s++; if (cpu->phyid == i) s++; if (cpu->hh.next) s++; }
+	VASSERT(s < 100, "idx");
+	REACH("x");
+}
+void h_tmp2(void)
+{
+	struct loom *loom = malloc(sizeof(struct loom));
+	loom->cpus = NULL; loom->ncpus = 0; loom->is_init = 0;
+	struct cpu *cpu = calloc(1, sizeof(struct cpu));
+	if (cpu == NULL) return;
+	cpu_init_begin(cpu, nondet_int(), nondet_int(), 0);
+	int r = loom_add_cpu(loom, cpu);
+	struct cpu *cpu2 = calloc(1, sizeof(struct cpu));
+	if (cpu2 == NULL) return;
+	cpu_init_begin(cpu2, nondet_int(), nondet_int(), 0);
+	int r2 = loom_add_cpu(loom, cpu2);
+	struct cpu *d = find_cpu_by_index(loom, 7);
+	VASSERT(d == NULL || d->index == 7, "p");
+	REACH("x");
+}
+#endif
